@@ -6,6 +6,8 @@ mod lex;
 mod cli;
 mod perm;
 mod preds;
+mod robust;
+mod roundtrip;
 mod years;
 mod text;
 
@@ -19,6 +21,9 @@ fn main() {
     }
     mcx::observe::quiet_panics();
     let prop = args[1].as_str();
+    if prop == "C15-child" {
+        std::process::exit(robust::child(&args[2..]));
+    }
     if args[2] == "--replay" {
         let file = args.get(3).cloned().unwrap_or_else(|| machinery_failure("--replay needs a file"));
         std::process::exit(ledger::replay(prop, &file));
@@ -41,6 +46,8 @@ fn main() {
         "C11" => ledger::c11(tier),
         "C12" => ledger::c12(tier),
         "C13" => lex::c13(tier),
+        "C14" => roundtrip::c14(tier),
+        "C15" => robust::c15(tier),
         other => machinery_failure(&format!("mc-core has no engine for {other}")),
     };
     std::process::exit(code);
